@@ -134,27 +134,67 @@ func (vc *VC) buildScript(onlyCand bool) (string, []*Obligation) {
 	return finishScript(vc.decls, b.String()), checked
 }
 
-// singleScript: the query for one obligation, with model request.
+// singleScript: the query for one obligation, with model request. The goal is skolemised and the
+// quantified hypotheses are additionally instantiated at the goal's skolem constants and at the index
+// terms used by the function (sound: instances are consequences of the hypotheses).
 func (vc *VC) singleScript(target *Obligation, model bool) string {
 	var b strings.Builder
+	decls := append([]string{}, vc.decls...)
 	for _, ax := range vc.e.axioms {
 		b.WriteString("(assert " + ax + ")\n")
 	}
+	// goal
+	goal := target.Term
+	var terms []skolem
+	nsk := 0
+	if strings.Contains(goal, "(forall ") || strings.Contains(goal, "(exists ") {
+		if sx, err := parseSx(goal); err == nil {
+			var sks []skolem
+			g2 := skolemizeGoal(sx, true, func(sort string) string {
+				nsk++
+				n := fmt.Sprintf("sk!%d", nsk)
+				decls = append(decls, fmt.Sprintf("(declare-const %s %s)", n, sort))
+				return n
+			}, &sks)
+			goal = g2.String()
+			terms = append(terms, sks...)
+		}
+	}
+	for i, t := range vc.indexTerms {
+		if i >= 12 {
+			break
+		}
+		terms = append(terms, skolem{t, offSort})
+	}
+	emit := func(t string) {
+		b.WriteString("(assert " + t + ")\n")
+		if len(terms) > 0 && strings.Contains(t, "(forall ") {
+			if sx, err := parseSx(t); err == nil {
+				for _, in := range instances(sx, terms, 48) {
+					b.WriteString("(assert " + in.String() + ")\n")
+				}
+			}
+		}
+	}
 	for _, it := range vc.items {
 		if it.Ob == nil {
-			b.WriteString(it.Text)
-			b.WriteByte('\n')
+			if strings.HasPrefix(it.Text, "(assert ") && strings.Contains(it.Text, "(forall ") {
+				emit(it.Text[8 : len(it.Text)-1])
+			} else {
+				b.WriteString(it.Text)
+				b.WriteByte('\n')
+			}
 			continue
 		}
 		if it.Ob == target {
-			b.WriteString("(assert (not " + it.Ob.Term + "))\n(check-sat)\n")
+			b.WriteString("(assert (not " + goal + "))\n(check-sat)\n")
 			if model {
 				b.WriteString("(get-model)\n")
 			}
-			return finishScript(vc.decls, b.String())
+			return finishScript(decls, b.String())
 		}
 		if it.Ob.Term != "true" {
-			b.WriteString("(assert " + it.Ob.Term + ")\n")
+			emit(it.Ob.Term)
 		}
 	}
 	panic("obligation not found")
